@@ -25,20 +25,20 @@ Definition hash_init (v : xof_variant) : xof_state := xof_init_fixed v 32.
 (* ascon_xof_absorb *)
 Definition xof_absorb (v : xof_variant) (s : xof_state) (d : bytes) : xof_state :=
   let '(st, count) := if x_mode s then (perm 0 (x_st s), 0) else (x_st s, x_count s) in
-  let '((st', count'), _) := duplex_c bf_enc (perm (xv_pb v)) 8 (st, count) d in
+  let '((st', count'), _) := duplex_c bf_enc (perm (xv_pb v)) (xv_rate_in v) (st, count) d in
   {| x_st := st'; x_count := count'; x_mode := false |}.
 
 (* ascon_xof_squeeze / ascon_xofa_squeeze *)
 Definition xof_enter_squeeze (v : xof_variant) (s : xof_state) : bytes * nat :=
   if x_mode s then (x_st s, x_count s)
   else
-    let st := xor_at (x_st s) (x_count s) [0x80%N] in
+    let st := sepf v (xor_at (x_st s) (x_count s) [0x80%N]) in
     if xv_lazy v then (st, 0) else (perm 0 st, 0).
 Definition xof_squeeze (v : xof_variant) (s : xof_state) (n : nat) : xof_state * bytes :=
   let sp := xof_enter_squeeze v s in
   let '((st', count'), out) :=
-    if xv_lazy v then lazy_squeeze_c (perm 0) 8 sp n
-    else duplex_c bf_sq (perm (xv_pb v)) 8 sp (zeros n) in
+    if xv_lazy v then lazy_squeeze_c (perm 0) (xv_rate_out v) sp n
+    else duplex_c bf_sq (perm (xv_pb v)) (xv_rate_out v) sp (zeros n) in
   ({| x_st := st'; x_count := count'; x_mode := true |}, out).
 
 (* ascon_xof_pad *)
